@@ -78,7 +78,14 @@ def run : Runner
       | [_, _, ov] => ov != "-"
       | [_, _, ov, z] => ov != "-" || z != "z1"
       | _ => true
-    pure { model := (if toks.isEmpty then "-" else " ".intercalate toks), prop := if bad.isEmpty then "ok" else "violated:buffers shared between keys or not erased" }
+    -- an operation that must fail (zeroed key, hardened child of a public key, ...) but produced a key or key material
+    let headOf (t : String) : String := (t.splitOn "|").headD ""
+    let leaked := (implSteps.zip toks).any fun (i, m) =>
+      (headOf m).startsWith "e:" && !(headOf i).startsWith "e:" && headOf i != "."
+    pure { model := (if toks.isEmpty then "-" else " ".intercalate toks),
+           prop := if !bad.isEmpty then "violated:buffers shared between keys or not erased"
+                   else if leaked then "violated:an operation that must fail (zeroed key / illegal derivation) returned key material"
+                   else "ok" }
   | _, _, _ => none
 
 end Bch.Drive.C15
